@@ -38,6 +38,8 @@ def main():
             n = req["n"]
             if fam == "wide":
                 n = max(20, n // 2)
+            if fam == "diamond":
+                n = max(20, n // 10)
             if fam == "tiny" and req.get("tier") == "thorough":
                 n = cert.TINY_TOTAL
             us = cert.generate(req["seed"], fam, n, uid)
